@@ -51,6 +51,18 @@ def compare_twins(srcs, levels, nstates, rng):
                 # declaring a function inline may legitimately be refused (e.g. defined after use)
                 pass
         nprog += len(ok)
+        # transparent also for the assembler: a conditional branch of an expansion out of reach (with the sizes an
+        # assembler gives the instructions) while the out-of-line spelling is fine
+        probs, _ = real_size_range_problems(ok)
+        bad = {}
+        for pr in probs:
+            pid_, vn_ = pr['id'].rsplit('@', 1)
+            bad.setdefault(pid_, {})[vn_] = pr
+        for pid_, b_ in bad.items():
+            if 'out' not in b_:
+                vn_ = sorted(b_)[0]
+                viol.append({'pid': pid_, 'why': 'only the inlined form has a conditional branch out of range: ' + b_[vn_]['why'], 'level': O, 'variant': vn_,
+                             'with_inline': srcs[pid_][vn_], 'without_inline': srcs[pid_]['out']})
         ce = coexec(ok, nstates, rng, layout_from='out', with_trace=True)
         for pid, m in ce.items():
             base = m['runs']['out']
@@ -149,6 +161,12 @@ def run(ctx):
             if 'inline ' not in s_in:
                 s_in = s_in.replace('unsigned char cnt()', 'inline unsigned char cnt()').replace('unsigned char wrap()', 'inline unsigned char wrap()')
             srcs['d' + k] = {'inl': s_in, 'sub': s_in, 'out': s_in.replace('inline ', '')}
+    # long inline bodies with an early return (tools/lib/gen_c.py long_programs)
+    from lib.gen_c import long_programs
+    for k, p_ in long_programs().items():
+        if k.startswith('L_inlret') and k.endswith('_1'):
+            s_in = p_.source()
+            srcs['l' + k] = {'inl': s_in, 'sub': s_in, 'out': s_in.replace('inline ', '')}
     # nested inlining, each level expanded several times
     for i in range(60 if quick else 1500):
         s = nested_inline_program(rng)
